@@ -20,6 +20,7 @@ import time
 from . import common as C
 from . import c18_gen
 from . import c18_kring as K
+from . import c17_borrow
 
 # the kring stream needs the cfg(tiny_std_verif) hook IoUring::verif_from_raw_parts: a build of its own, in the target
 # directory harness/c17 uses for the same flag (rusl is compiled once for both)
@@ -119,7 +120,7 @@ def judge_sqe(ctors_by_name):
 def run(ctx):
     ctx.rule = ("sqe stream: every regenerated constructor (except new_sendmsg, which needs a live guard object) on boundary-biased "
                 "random operands, image compared byte for byte; teardown stream: (entries, flags, SINGLE_MMAP shown/hidden, failing "
-                "mmap none/0/1/2) on the running kernel; distinct_nontrivial = distinct (constructor) + (entries, flags, single, fail) classes; "
+                "mmap none/0/1/2) on the running kernel, against the dev AND the release build of the harness; distinct_nontrivial = distinct (constructor) + (entries, flags, single, fail) classes; "
                 "oracle run: random batches of 1..8 independent or linked ops (openat/close/readv/writev/statx/mkdirat/unlinkat/renameat/"
                 "timeout) on one 8-entry ring vs std/direct syscalls in a twin directory, (user_data,res), read content, statx and final "
                 "directory trees compared; kring stream: op sequences {g ud flags len, f, r, w, k n, x i, o n, i} over rings of 1..8 submission "
@@ -140,7 +141,8 @@ def run(ctx):
         "bc63d9e it was false (orig_reap_reference_outlives_slot)",
         "the simulated kernel of harness/c18/src/kring.rs is an independent Rust reading of the contract (checked against the Lean model "
         "token by token and by the Python oracle of checks/c18_kring.py)",
-        "Model/UringRes.lean describes setup_io_uring/Drop (checked by the sc-shim log of real runs on this kernel)",
+        "Model/UringRes.lean describes setup_io_uring/Drop (checked by the sc-shim log of real runs on this kernel, for both compiled "
+        "artefacts: dev profile = debug assertions on, release profile = off; the model itself has no notion of build profile)",
         "bytes 30..31 of new_poll_add's image are not written by the constructor (u16 union member); observed zero",
     ]
     ctx.trusted += ["checks/c18_gen.py (extractor)", "sc-shim syscall log; harness/c18 oracle (std::fs / raw syscalls as the reference)",
@@ -152,6 +154,9 @@ def run(ctx):
     except Exception as e:  # Untranslatable or I/O
         ctx.broken.append({"translator": repr(e)})
         ctors = None
+    # Props/C18 imports C17's borrow_contract_holds (the split-reap theorems assume one outstanding completion reference):
+    # regenerate Gen/RingBorrow.lean from the compile-contract probes; a contract that is gone is C17's violation to report
+    c17_borrow.probe(ctx, report=False)
     ok = C.lean_prove(ctx, "TinyVerif.Props.C18", drivers=["drv_c18"]) if ctors is not None else False
     if ctors is None:
         ctx.obligations += 1
@@ -249,6 +254,15 @@ def run(ctx):
     if tcases:
         C.correspond(ctx, "teardown", tcases, [exe], drv, judge_teardown,
                      lambda c, o, why: {"op": "teardown", "single": c.split()[3], "fail": c.split()[4], "kind": why.split(" of ")[0][:30]})
+        # the same stream against the release build (debug assertions off, optimised): clean-up placed under
+        # cfg(debug_assertions) / inside debug_assert! exists in one artefact only; the model describes the source
+        exe_rel, err = build(ctx, True)
+        if exe_rel is None:
+            ctx.broken.append({"harness_build_failed": err})
+            ctx.violation({"kind": "harness-build-failed", "mode": "release"}, {"error": err}, no_input=True)
+            return
+        C.correspond(ctx, "teardown-release", tcases, [exe_rel], drv, judge_teardown,
+                     lambda c, o, why: {"op": "teardown", "profile": "release", "single": c.split()[3], "fail": c.split()[4], "kind": why.split(" of ")[0][:30]})
         for c_ in tcases:
             ctx.count(("teardown",) + tuple(c_.split()[1:5]))
         ctx.sample({"case": tcases[0]})
